@@ -95,7 +95,17 @@ type V1Hunk struct {
 func (v *V1) ProjectDiff(d jd1.Diff) []V1Hunk {
 	out := make([]V1Hunk, len(d))
 	for i, e := range d {
-		out[i] = V1Hunk{Path: v.ProjectList(e.Path), Remove: v.ProjectList(e.OldValues), Add: v.ProjectList(e.NewValues)}
+		path := v.ProjectList(e.Path)
+		for j := range path {
+			if path[j].K == "s" { // a string path element names an object key
+				if raw, ok := v.T.Strings[path[j].V.(string)]; ok {
+					path[j].V = v.T.KeySym(raw)
+				} else {
+					path[j].V = v.T.KeySym(path[j].V.(string))
+				}
+			}
+		}
+		out[i] = V1Hunk{Path: path, Remove: v.ProjectList(e.OldValues), Add: v.ProjectList(e.NewValues)}
 	}
 	return out
 }
